@@ -117,6 +117,20 @@ AcpcOK(t, Pr) ==
              /\ fa.stacks = fb.stacks \/ Report(t, 0, "twin-stacks", "acpc-parse", {}, {}, <<fa.stacks, fb.stacks>>)
              /\ Flat(fa.board) = Flat(fb.board) \/ Report(t, 0, "twin-cards", "acpc-parse", {"board"}, {}, <<fa.board, fb.board>>)
 
+\* C20: a hand rendered as a site log and imported back: same betting actions (raises in raise-to form), board, chips
+SiteOK(t, Pr) ==
+  Pr.parsed =>
+    LET bet(a) == SelectSeq(a, LAMBDA x : x[1] \in {"f", "cc", "cbr"})
+        a == bet(PhhActions(FullLog(Pr.A)))
+        b == bet(PhhActions(FullLog(Pr.B)))
+        fa == Final(Pr.A)
+        fb == Final(Pr.B)
+    IN /\ a = b \/ Report(t, 0, "twin-actions", Pr.site, {}, {}, <<"first difference", FirstDiff(a, b)>>)
+       /\ fa.stacks = fb.stacks \/ Report(t, 0, "twin-stacks", Pr.site, {}, {}, <<fa.stacks, fb.stacks>>)
+       /\ fa.payoffs = fb.payoffs \/ Report(t, 0, "twin-payoffs", Pr.site, {}, {}, <<fa.payoffs, fb.payoffs>>)
+       /\ Flat(fa.board) = Flat(fb.board) \/ Report(t, 0, "twin-cards", Pr.site, {"board"}, {}, <<fa.board, fb.board>>)
+       /\ (~fa.status => ~fb.status) \/ Report(t, 0, "twin-state", Pr.site, {"status"}, {}, <<fa.status, fb.status>>)
+
 TwinOK(t, Pr) ==
   /\ FlagsOK(t, Pr)
   /\ CASE Pr.kind = "auto" -> LogsOK(t, Pr) /\ SyncOK(t, Pr)
@@ -125,6 +139,7 @@ TwinOK(t, Pr) ==
        [] Pr.kind = "show" -> PayoffsOK(t, Pr)
        [] Pr.kind = "phh" -> PhhOK(t, Pr)
        [] Pr.kind = "acpc" -> AcpcOK(t, Pr)
+       [] Pr.kind = "site" -> SiteOK(t, Pr)
        [] OTHER -> Report(t, 0, "twin-unknown-kind", Pr.kind, {}, {}, <<>>)
 
 Init ==
